@@ -1,5 +1,6 @@
 import HpxVerif.Model.Proj
 import HpxVerif.Lemmas.ProjReal
+import HpxVerif.Lemmas.ProjReal5
 
 /-!
 # C17 — HEALPix projection and de-projection are inverse, in range, base-cell exact
@@ -14,7 +15,10 @@ Over ℝ (the same model functions at `α := ℝ`): `cea_roundtrip_real`, `colli
 projection are inverted exactly) and **`unproj_proj_real_partial`: `unproj (proj (lon, lat)) = (lon, lat)`** for
 `0 ≤ lon < 2π`, `0 ≤ lat ≤ π/2` up to the code's pole threshold (`√6·cos(lat/2 + π/4) > EPS_POLE`, i.e. colatitude above
 about `8e-14` rad) — partial: negative longitudes/latitudes go through `|·|` and the sign bits and are not restated.
-Open statements (over the reals): `proj_eq_spec`, `proj_unproj`, `base_cell_from_proj_coo_spec`;
+**The whole statement over ℝ** (second half of this file): `proj_eq_spec` (= the Calabretta & Roukema formulae, stated
+independently), `proj_range`, `unproj_proj` for all four sign quadrants and `unproj_proj_pole`, `proj_unproj` on the
+projected domain with its edge cases (`proj_unproj_right_edge`, `proj_unproj_at_eight`), `base_cell_from_proj_coo_spec`
+with its border convention and `base_cell_of_projected`.  The float residue (1e-14 rad) is
 validated by the bit-exact correspondence on `proj`, `unproj`, `base_cell_from_proj_coo` and by oracles against an
 independent implementation of the Calabretta & Roukema formulae.
 -/
@@ -79,5 +83,85 @@ theorem unproj_proj_real_partial (lon lat : ℝ) (hlon0 : 0 ≤ lon) (hlon1 : lo
 example : (0 : ℝ) ≤ 1 ∧ (1 : ℝ) < 2 * Real.pi ∧ (0 : ℝ) ≤ 0 ∧ (0 : ℝ) ≤ Real.pi / 2 := by
   have := Real.two_le_pi
   refine ⟨by norm_num, by linarith, le_refl _, by linarith⟩
+
+/-! ## the whole statement over the reals -/
+
+/-- **`proj` is the Calabretta & Roukema HEALPix projection** (`projSpec`: H = 4, K = 3, stated independently of the code:
+    `(lon·4/π, (3/2)·sin lat)` in the equatorial zone, `σ = √(3(1 − |sin lat|))`, `y = ±(2 − σ)`, `x = xc + (lon·4/π − xc)·σ`
+    in the caps), for every latitude and `0 ≤ lon < 2π`; for `−2π < lon < 0` the abscissa carries the sign of the longitude -/
+theorem proj_eq_spec (lon lat : ℝ) (hlat0 : -(Real.pi / 2) ≤ lat) (hlat1 : lat ≤ Real.pi / 2) :
+    (0 ≤ lon → lon < 2 * Real.pi → proj (α := ℝ) lon lat = some (projSpec lon lat)) ∧
+    (-(2 * Real.pi) < lon → lon < 0 →
+      proj (α := ℝ) lon lat = some (-(projSpec (-lon) lat).1, (projSpec (-lon) lat).2)) :=
+  ⟨fun h0 h1 => Hpx.Proj.proj_eq_spec lon lat h0 h1 hlat0 hlat1,
+   fun h0 h1 => Hpx.Proj.proj_eq_spec_neg lon lat h0 h1 hlat0 hlat1⟩
+
+/-- **range**: `|x| < 8`, `|y| ≤ 2`, signs of `x`, `y` are the signs of `lon`, `lat` (for `|lon|·4/π < 256`, i.e. 32 turns) -/
+theorem proj_range (lon lat : ℝ) (hlon : |lon| * (4 / Real.pi) < 256) (hlat0 : -(Real.pi / 2) ≤ lat)
+    (hlat1 : lat ≤ Real.pi / 2) :
+    ∃ X Y, proj (α := ℝ) lon lat = some (X, Y) ∧ |X| < 8 ∧ |Y| ≤ 2 ∧ (0 ≤ lon → 0 ≤ X) ∧ (lon < 0 → X ≤ 0) ∧
+      (0 ≤ lat → 0 ≤ Y) ∧ (lat < 0 → Y < 0) ∧ (lon < 0 → |lon| < 2 * Real.pi → X < 0) :=
+  Hpx.Proj.proj_range lon lat hlon hlat0 hlat1
+
+/-- **`unproj ∘ proj = id`**, all four sign quadrants, `|lon| < 2π`, every latitude on the near side of the code's pole
+    threshold (exact longitude, not only modulo 2π) -/
+theorem unproj_proj (lon lat : ℝ) (hlon : |lon| < 2 * Real.pi) (hlat0 : -(Real.pi / 2) ≤ lat) (hlat1 : lat ≤ Real.pi / 2)
+    (hpole : (Num.epsPole : ℝ) < Real.sqrt 6 * Real.cos (|lat| / 2 + Real.pi / 4)) :
+    ∃ X Y, proj (α := ℝ) lon lat = some (X, Y) ∧ unproj (α := ℝ) X Y = some (lon, lat) :=
+  unproj_proj_full lon lat hlon hlat0 hlat1 hpole
+
+/-- … and **at the pole**: the latitude is recovered exactly and the longitude returned is that of the facet centre (any
+    longitude denotes the same point there) -/
+theorem unproj_proj_pole (lon lat : ℝ) (hlon : |lon| < 2 * Real.pi) (hlat : |lat| = Real.pi / 2) :
+    ∃ k : ℕ, k < 4 ∧ (k : ℝ) ≤ |lon| * 2 / Real.pi ∧ |lon| * 2 / Real.pi < k + 1 ∧
+      proj (α := ℝ) lon lat = some (sgn lon (2 * k + 1), sgn lat 2) ∧
+      unproj (α := ℝ) (sgn lon (2 * k + 1)) (sgn lat 2) = some (sgn lon ((2 * k + 1) * (Real.pi / 4)), lat) :=
+  unproj_proj_at_pole lon lat hlon hlat
+
+/-- **`proj ∘ unproj = id`** on the projected domain (`|x| < 8`, `|y| ≤ 2`, inside the Collignon triangles in the caps,
+    right edges excluded: `proj_unproj_right_edge`), away from the pole threshold.  `hneg` excludes, over ℝ only, the
+    points of negative abscissa whose longitude is exactly `-0` (at `Float` the sign bit of `-0.0` keeps the round trip) -/
+theorem proj_unproj (x y : ℝ) (hd : InProjDomain x y) (hpole : (Num.epsPole : ℝ) < 2 - |y|)
+    (hneg : x < 0 → 1 < |y| → |x| ≠ |y| - 1) :
+    ∃ lon lat, unproj (α := ℝ) x y = some (lon, lat) ∧ -(Real.pi / 2) ≤ lat ∧ lat ≤ Real.pi / 2 ∧
+      |lon| < 2 * Real.pi ∧ proj (α := ℝ) lon lat = some (x, y) :=
+  Hpx.Proj.proj_unproj x y hd hpole hneg
+
+/-- on (or right of) the right edge of a north Collignon triangle `unproj` returns the seam meridian, which `proj` maps to
+    the left edge of the next triangle — the same point of the sphere -/
+theorem proj_unproj_right_edge (k : ℕ) (hk : k < 4) (x y : ℝ) (h2 : x < 2 * k + 2) (hy1 : 1 < y) (hy2 : y ≤ 2)
+    (hpole : (Num.epsPole : ℝ) < 2 - y) (ht : 2 - y ≤ x - (2 * k + 1)) :
+    ∃ lat, unproj (α := ℝ) x y = some ((2 * k + 2) * (Real.pi / 4), lat) ∧
+      proj (α := ℝ) ((2 * k + 2) * (Real.pi / 4)) lat = some ((((2 * k + 3) % 8 : ℕ) : ℝ) - (2 - y), y) :=
+  proj_unproj_clamped_right k hk x y h2 hy1 hy2 hpole ht
+
+/-- `x = ±8` (the closing meridian) un-projects to longitude 0, which projects to `x = 0` -/
+theorem proj_unproj_at_eight (y : ℝ) (hy : |y| ≤ 1) :
+    ∃ lat, unproj (α := ℝ) 8 y = some (0, lat) ∧ unproj (α := ℝ) (-8) y = some (0, lat) ∧
+      proj (α := ℝ) 0 lat = some (0, y) := Hpx.Proj.proj_unproj_at_eight y hy
+
+/-- **`base_cell_from_proj_coo`**: for every point of the domain the result is a base cell `< 12` whose closed diamond
+    `|x − Xb| + |y − Yb| ≤ 1` (x modulo 8) contains the point, with the **border convention** made explicit: the point is
+    never on a northern (NE/NW) edge of the returned cell — a shared border goes to the cell north of it — except on the
+    outer edge of a north polar triangle, which has no neighbour in the plane -/
+theorem base_cell_from_proj_coo_spec (x y : ℝ) (hx0 : 0 ≤ x) (hx8 : x < 8) (hy : |y| ≤ 2)
+    (hcap : 1 < |y| → ∃ k : ℕ, k < 4 ∧ |x - (2 * k + 1)| ≤ 2 - |y|)
+    (hne : 1 < y → y < 2 → ∀ k : ℕ, k < 4 → x - (2 * k + 1) ≠ 2 - y) :
+    ∃ b, baseCellFromProjCoo (α := ℝ) false x y = some b ∧ b < 12 ∧ ∃ m : ℤ,
+      |x - 8 * m - cellCx b| + |y - cellCy b| ≤ 1 ∧
+      (|x - 8 * m - cellCx b| + (y - cellCy b) < 1 ∨ (b < 4 ∧ 1 ≤ y)) :=
+  base_cell_from_proj_coo_spec_border x y hx0 hx8 hy hcap hne
+
+/-- on the excluded open NE edge of a north triangle the code returns the east neighbour: in the plane its diamond does
+    not contain the point, on the sphere (seam identification `x ↦ x + 2(y − 1)`) it does -/
+theorem base_cell_ne_edge (k : ℕ) (hk : k < 4) (x y : ℝ) (hy1 : 1 < y) (hy2 : y < 2) (hx : x = 2 * k + 1 + (2 - y)) :
+    baseCellFromProjCoo (α := ℝ) false x y = some ((k + 1) % 4) ∧ InCell ((k + 1) % 4) (x + 2 * (y - 1)) y ∧
+      ¬ InCell ((k + 1) % 4) x y := base_cell_north_east_edge k hk x y hy1 hy2 hx
+
+/-- end to end: the base cell of a projected position contains it, poles included -/
+theorem base_cell_of_projected (lon lat : ℝ) (hlon0 : 0 ≤ lon) (hlon1 : lon < 2 * Real.pi)
+    (hlat0 : -(Real.pi / 2) ≤ lat) (hlat1 : lat ≤ Real.pi / 2) :
+    ∃ X Y b, proj (α := ℝ) lon lat = some (X, Y) ∧ baseCellFromProjCoo (α := ℝ) false X Y = some b ∧ b < 12 ∧
+      InCell b X Y := base_cell_of_proj lon lat hlon0 hlon1 hlat0 hlat1
 
 end Hpx.C17
